@@ -91,17 +91,50 @@ def deref_origin(body, op, depth=0):
     return o
 
 
+def upvar_source(body, p):
+    """for a place rooted in a closure environment field: (parent body, operand captured into that field) or None"""
+    idx = None
+    for e in p.get("p", ()):
+        if isinstance(e, dict) and "f" in e and str(e.get("o", "")).startswith("{env}"):
+            idx = e["i"]
+            break
+    if idx is None or not body.parent:
+        return None
+    par = body.world.bodies.get(body.parent)
+    if par is None:
+        return None
+    for bb, i, s in par.all_stmts():
+        r = s["r"]
+        if r["k"] == "agg" and r.get("def") == body.id and idx < len(r["ops"]):
+            return par, r["ops"][idx]
+    return None
+
+
 def root_place(body, p, depth=0):
-    """Follow a place back through reference temporaries: (*_5).f where _5 = &mut (*_1).g  ->  (*_1).g.f
-    Returns the flattened list of field names from the root and the root local."""
+    """Follow a place back through reference temporaries and closure captures:
+    (*_5).f where _5 = &mut (*_1).g  ->  (*_1).g.f ; (*_1.self__rx__recv) in a closure -> (*self).rx.recv in the parent.
+    Returns (root local in the body where the walk ended, flattened list of 'Owner::field' names from the root)."""
     fields = []
     cur = p
-    for _ in range(30):
-        fields = place_fields(cur) + fields
+    b = body
+    for _ in range(40):
+        fs = place_fields(cur)
+        env = [f for f in fs if f.startswith("{env}")]
+        fields = [f for f in fs if not f.startswith("{env}")] + fields
         l = cur["l"]
-        if 1 <= l <= body.argc:
+        if env:
+            up = upvar_source(b, cur)
+            if up is None:
+                return l, fields
+            b, op = up
+            np = op_place(op)
+            if np is None:
+                return None, fields
+            cur = np
+            continue
+        if 1 <= l <= b.argc:
             return l, fields
-        d = single_def(body, l)
+        d = single_def(b, l)
         if d is None or d[1] == "term":
             return l, fields
         r = d[2]["r"]
